@@ -160,7 +160,11 @@ impl DnsCache {
         let mut result = HashMap::new();
 
         if let Some(records) = self.addr.get(&hostname_lower) {
-            for record in records {
+            // Leave out records that were withdrawn by a goodbye (TTL 0, kept with TTL 1).
+            for record in records
+                .iter()
+                .filter(|r| r.record.get_record().get_ttl() > 1)
+            {
                 if let Some(dns_addr) = record.record.any().downcast_ref::<DnsAddress>() {
                     let record_name = record.record.get_name().to_string();
                     let address = dns_addr.address();
